@@ -25,7 +25,7 @@ Ev == TraceLog[l]
 Is(name) == l <= NLines /\ Ev.e = name /\ l' = l + 1
 
 \* JSON option -> RouteRef option (method set arrives as a sequence)
-MethOf(m) == IF m.k = "none" THEN [k |-> "none"] ELSE [k |-> "set", s |-> SeqToSet(m.s)]
+MethOf(m) == IF m.k = "none" THEN [k |-> "none"] ELSE [k |-> "re", alts |-> m.alts]     \* methods are byte strings (Ev.mb)
 OptOf(o) == IF o.t = "h" THEN [t |-> "h", id |-> o.id, pat |-> o.pat, meth |-> MethOf(o.meth), sel |-> o.sel]
             ELSE [t |-> "m", child |-> o.child, pat |-> o.pat, sel |-> o.sel]
 NodeOf(n) == [parent |-> n.parent, mparent |-> n.mparent, mroot |-> n.mroot, helpers |-> n.helpers, mname |-> n.mname, mt |-> n.mt,
@@ -70,13 +70,13 @@ MapOK ==
                 rp == SubSeq(full, Len(prefix) + 1, Len(full))              \* path info seen by the root application
             IN
             /\ Ev.url = full
-            /\ RouteOK(Ev.m, rp)
-            /\ (Ev.tapp # 0 /\ ~RouteAmbiguous(cfg, 1, Ev.m, rp)) =>
+            /\ RouteOK(Ev.mb, rp)
+            /\ (Ev.tapp # 0 /\ ~RouteAmbiguous(cfg, 1, Ev.mb, rp)) =>
                   /\ u.node = Ev.tapp
                   /\ (Ev.tid # 0 =>
                         LET h == CHOOSE o \in { cfg[Ev.tapp].opts[i] : i \in 1..Len(cfg[Ev.tapp].opts) } : o.t = "h" /\ o.id = Ev.tid
                             want == Sel(<<>>, Ev.full, h.sel)
-                            w == Intended(1, rp, Ev.tapp, Ev.tid, want, Ev.m)
+                            w == Intended(1, rp, Ev.tapp, Ev.tid, want, Ev.mb)
                         IN /\ w \in {"reached", "shadowed"}
                            /\ (w = "reached" => Observed = [hit |-> TRUE, app |-> Ev.tapp, id |-> Ev.tid, args |-> want]))
 
@@ -92,7 +92,7 @@ PReqOK ==
 
 TReset == Is("Reset") /\ cfg' = <<>> /\ prefix' = <<>> /\ mps' = <<>> /\ helpers' = <<>> /\ gone' = {}
 TCfg   == Is("Cfg") /\ cfg' = [i \in 1..Len(Ev.nodes) |-> NodeOf(Ev.nodes[i])] /\ prefix' = Ev.prefix /\ helpers' = Ev.helpers /\ UNCHANGED <<mps, gone>>
-TReq   == Is("Req") /\ RouteOK(Ev.m, Ev.p) /\ UNCHANGED <<cfg, prefix, mps, helpers, gone>>
+TReq   == Is("Req") /\ RouteOK(Ev.mb, Ev.p) /\ UNCHANGED <<cfg, prefix, mps, helpers, gone>>
 TMap   == Is("Map") /\ MapOK /\ UNCHANGED <<cfg, prefix, mps, helpers, gone>>
 TPMount == Is("PMount") /\ mps' = Append(mps, [id |-> Ev.id, kind |-> Ev.kind, mp |-> Ev.mp]) /\ UNCHANGED <<cfg, prefix, helpers, gone>>
 TPGone  == Is("PGone") /\ gone' = gone \cup {Ev.id} /\ UNCHANGED <<cfg, prefix, mps, helpers>>
